@@ -37,6 +37,7 @@ void ClockDevice::configure(const std::vector<std::string>& toks) {
   useTestable = kvInt(toks, "testable", 0) != 0
       && cfg.sync == 3600 && cfg.init == 5 && cfg.tmo == 1000;
   useStats = kvInt(toks, "stats", 0) != 0;
+  probes = kvInt(toks, "probe", 1) != 0;
   ref.refBase = kvInt(toks, "refbase", 650000000);
   rtc.ace_time::testing::FakeClock::setNow((acetime_t)kvInt(toks, "rtc", 0));
 }
@@ -143,11 +144,15 @@ void ClockDevice::doLoop(int opIndex, Verdict& v, Coverage& cov) {
     // is not probed around the call, so that a loop() which fails to keep the clock alive is not
     // rescued by the harness's own reads. Divergence shows at the next GET.
     acetime_t lsPre0 = primary->getLastSyncTime();
-    ref.beginCall();
+    ref.beginCall(); rtc.beginCall();
     primary->loop();
     control->getNow();
     if (ref.sentCalls || ref.readCalls) {
       v.fail("c14-noref", "no reference clock configured, yet loop() talked to one", opIndex);
+    }
+    if (rtc.setCalls) {
+      v.fail("c14-noref", fmt("no reference clock configured (\"it only keeps time\"), yet loop() wrote %ld to the "
+          "backup clock", (long)rtc.lastSet), opIndex);
     }
     if (primary->getLastSyncTime() != lsPre0) {
       v.fail("c14-lastsync", "no reference clock, yet loop() changed getLastSyncTime()", opIndex);
@@ -156,20 +161,26 @@ void ClockDevice::doLoop(int opIndex, Verdict& v, Coverage& cov) {
     return;
   }
 
-  acetime_t pre = probe(opIndex, v, "before loop()");
+  // Probing the primary around every call is what makes "applied immediately" checkable at the call itself, but
+  // the probe is a getNow(), which catches the clock up: a loop() that forgot to keep the clock alive would be
+  // rescued by the harness. So a share of the runs (probe=0) never touches the primary here: the control is polled
+  // by reading it, "before" is the control's reading, a consumed valid answer is assumed applied, and any
+  // divergence shows at the next GET (c14-corrupt).
+  acetime_t pre = probes ? probe(opIndex, v, "before loop()") : control->getNow();
   acetime_t lsPre = primary->getLastSyncTime();
   ref.beginCall(); rtc.beginCall();
   const bool readyBefore = ref.readyNow();
   const int64_t readyAtBefore = ref.readyAt;
   const RefPlan::Kind kindBefore = ref.cur.kind;
   primary->loop();
-  control->loop();
+  if (probes) control->loop();
   const bool sent = ref.sentCalls > 0;
   const bool readHas = ref.readCalls > 0;
   const acetime_t readVal = ref.lastRead;
   const bool readValid = readHas && readVal != kInvalid;
   const bool bakDistinct = cfg.ref == 1 && cfg.bak;
-  acetime_t post = primary->getNow();
+  const bool postKnown = probes;
+  acetime_t post = probes ? primary->getNow() : pre;
   acetime_t lsPost = primary->getLastSyncTime();
 
   if (cfg.ref == 0) {
@@ -223,13 +234,13 @@ void ClockDevice::doLoop(int opIndex, Verdict& v, Coverage& cov) {
   const bool lateAnswer = sync.phase == SyncModel::IDLE && sync.after == SyncModel::FAILURE && readValid;
   if (lateAnswer) {
     cov.count("probe.late_answer_read_after_giveup");
-    if (pre != post) {
+    if (postKnown && pre != post) {
       v.fail("c14-late-applied", fmt("t=%lld ms: request already failed (timed out / invalid), yet a "
           "late answer %ld was applied: clock %ld -> %ld", (long long)now, (long)readVal,
           (long)pre, (long)post), opIndex);
     }
   } else if (readValid) {
-    if (post != readVal) {
+    if (postKnown && post != readVal) {
       v.fail("c14-apply", fmt("t=%lld ms: valid response %ld consumed but getNow()=%ld right after",
           (long long)now, (long)readVal, (long)post), opIndex);
     }
@@ -245,12 +256,17 @@ void ClockDevice::doLoop(int opIndex, Verdict& v, Coverage& cov) {
       if (pre != kInvalid && (d > 1000 || d < -1000)) cov.count("fault.ref_jump");
     }
   } else {
+    if (bakDistinct && rtc.setCalls > 0 && rtc.lastSet != pre && rtc.lastSet != post) {
+      v.fail("c14-backup", fmt("t=%lld ms: no valid response consumed in this loop() call, yet the distinct backup "
+          "clock was set to %ld, which is neither a response nor what the clock reads (%ld)", (long long)now,
+          (long)rtc.lastSet, (long)pre), opIndex);
+    }
     if (lsPost != lsPre) {
       v.fail("c14-lastsync", fmt("t=%lld ms: no valid response consumed in this loop() yet "
           "getLastSyncTime() went %ld -> %ld", (long long)now, (long)lsPre, (long)lsPost), opIndex);
     }
   }
-  {
+  if (postKnown) {
     acetime_t c = control->getNow();
     if (post != c) {
       v.fail("c14-corrupt", fmt("after loop() at t=%lld ms: clock reads %ld, control clock reads %ld "
@@ -271,7 +287,7 @@ void ClockDevice::doLoop(int opIndex, Verdict& v, Coverage& cov) {
     else if (readyBefore) ev = "ready-unread";
     else if (late) ev = "timeout";
     else ev = "waiting";
-  } else ev = now >= sync.dueMax ? "due" : "before-due";
+  } else ev = now >= sync.dueExpect ? (now > sync.dueMax ? "overdue" : "due") : "before-due";
   if (readValid && late) ev = "race-read";
   {
     int lvl = sync.failStreak > 6 ? 6 : sync.failStreak;
@@ -308,7 +324,8 @@ void ClockDevice::doLoop(int opIndex, Verdict& v, Coverage& cov) {
       sync.C.clear(); sync.C.insert(cfg.sync);
       sync.phase = SyncModel::IDLE; sync.after = SyncModel::SUCCESS;
       sync.dueMin = sync.start + (int64_t)cfg.sync * 1000;
-      sync.dueMax = now + (int64_t)cfg.sync * 1000;
+      sync.dueExpect = now + (int64_t)cfg.sync * 1000;
+      sync.dueMax = now + sync.maxPeriodMs();
       sync.overdue = 0;
       if (sync.failStreak > 0 || sawFail) sawFailThenSuccess = true;
       sync.failStreak = 0; sync.successes++;
@@ -428,7 +445,7 @@ bool ClockDevice::exec(const std::vector<std::string>& toks, int opIndex, Verdic
     // budget: outstanding request may still have to time out, then the longest admissible
     // period, then the final request's latency (10 ms); counted in loop() calls, not wall time
     int calls = 0;
-    while (sync.successes < target && calls < 14 && !v.violated) {
+    while (sync.successes < target && calls < 28 && !v.violated) {
       int64_t dl = sync.nextDeadline(t, ref.outstanding ? ref.readyAt : SimRefClock::kNever);
       if (dl > t + 70000000) dl = t + 70000000;
       if (dl > t) advance(dl - t, cov);
@@ -442,7 +459,7 @@ bool ClockDevice::exec(const std::vector<std::string>& toks, int opIndex, Verdic
           "the model's deadlines over %lld simulated ms produced no successful sync",
           (long long)t0, calls, (long long)(t - t0)), opIndex);
     }
-    int64_t bound = (int64_t)(cfg.init > cfg.sync ? cfg.init : cfg.sync) * 1000 + cfg.tmo + 1000 + 14;
+    int64_t bound = sync.maxPeriodMs() + cfg.tmo + 1000 + 28;
     if (!v.violated && t - t0 > bound) {
       v.fail("c14-liveness-final", fmt("successful sync only %lld ms after faults stopped; bound is %lld",
           (long long)(t - t0), (long long)bound), opIndex);
@@ -710,9 +727,9 @@ Trace genClockSync(uint64_t seed) {
   uint64_t boot = drawBoot(rng);
   const int64_t refBase0 = 600000000 + (int64_t)rng.below(100000000);
   tr.lines.push_back(fmt("CFG CLOCK sync=%u init=%u tmo=%u ref=%s bak=%d boot=%llu testable=%d stats=%d "
-      "refbase=%lld rtc=%lld", syncP, initP, tmo, refArr, bak ? 1 : 0, (unsigned long long)boot,
+      "refbase=%lld rtc=%lld probe=%d", syncP, initP, tmo, refArr, bak ? 1 : 0, (unsigned long long)boot,
       testable ? 1 : 0, rng.chance(1, 4) ? 1 : 0, (long long)refBase0,
-      (long long)drawRtcValue(rng)));
+      (long long)drawRtcValue(rng), rng.chance(1, 3) ? 0 : 1));
 
   // swarm: enabled fault kinds and rates
   bool faultFree = rng.chance(3, 10);
